@@ -169,26 +169,36 @@ def main(argv=None):
   ctx = mp.get_context("fork")
   workers = min(16, os.cpu_count() or 4)
   crash = []
+  for mod, tb in registry.LOAD_ERRORS.items():
+    if mod.lower() == prop.lower():
+      crash.append(f"bounded/{mod}.py failed to import: {tb}")
   with ctx.Pool(workers) as pool:
     # bounded + ground run concurrently with the deductive part
     b_async = [pool.apply_async(_bounded_worker, ((i, tier, seed),)) for i in bidx]
     g_async = [pool.apply_async(_ground_worker, ((i,),)) for i in gidx]
+    t_gen0 = time.time()
     gens = pool.map(_gen_worker, [(t, prop) for t in targets], chunksize=1)
     gens += pool.map(_lemma_worker, [(n, prop) for n in lemma_names], chunksize=1)
     all_obs = [o for g in gens for o in g["obligations"]]
     timeout = QUICK_TIMEOUT_MS if tier == "quick" else THOROUGH_TIMEOUT_MS
     jobs = [(i, o["smt2"], timeout, tier == "thorough") for i, o in enumerate(all_obs)]
     results = [None] * len(jobs)
+    t_solve0 = time.time()
     for r in pool.imap_unordered(backend._work, jobs, chunksize=1):
       results[r["idx"]] = r
+    t_solve1 = time.time()
     b_res = [a.get() for a in b_async]
     g_res = [a.get() for a in g_async]
   # retry unknowns once, sequentially, with a doubled budget (load robustness)
+  n_retry = 0
   for i, r in enumerate(results):
     if r["status"] in ("unknown", "error"):
+      n_retry += 1
       r2 = backend._work((i, all_obs[i]["smt2"], timeout * 2, True))
       if r2["status"] in ("sat", "unsat"):
+        r2["retried"] = True
         results[i] = r2
+  t_retry1 = time.time()
 
   known = load_known()
   base_path = os.path.join(VERIF, "baseline", f"{prop}.json")
@@ -377,6 +387,11 @@ def main(argv=None):
   print(f"{prop} [{tier}] functions={len(funcs)} obligations={counted} discharged={n_discharged} "
         f"ground={len(ground_out)} bounded_evaluations={total_eval} undecided={len(undecided)} "
         f"violations={len(violations)} wall={wall:.1f}s")
+  print(f"phases: generation {t_solve0 - t_gen0:.1f}s, solving {t_solve1 - t_solve0:.1f}s, "
+        f"sequential retry of {n_retry} unknown(s) {t_retry1 - t_solve1:.1f}s, rest {time.time() - t_retry1:.1f}s")
+  for o, r in zip(all_obs, results):
+    if r.get("retried"):
+      print(f"  needed the retry: {o['label'][:150]}")
   slow = sorted(((g["gen_time"], g["target"]) for g in gens if g["gen_time"] > 8), reverse=True)[:5]
   if slow:
     print("slow VC generation:", "; ".join(f"{t:.0f}s {n.split('::')[1]}" for t, n in slow))
